@@ -60,6 +60,8 @@ def apply(c, op):
             return ('ok', c.popitem())
         if name == 'update':
             return ('ok', c.update(dict(op[1])))
+        if name == 'updatekw':
+            return ('ok', c.update(dict(op[1]), **dict(op[2])))
         if name == 'clear':
             return ('ok', c.clear())
         if name == 'eq':
@@ -231,7 +233,7 @@ def alphabet(cfg, reduced=False, quick=False):
                 ('pop', 'a'), ('len',)]
     ops = [('set', 'c', 2), ('set', 'a', 5), ('getitem', 'a'), ('getitem', 'c'), ('get', 'a'), ('get', 'c'),
            ('setdefault', 'c', 7), ('setdefault', 'a', 7), ('del', 'a'), ('pop', 'a'), ('popitem',),
-           ('update', (('c', 3),)), ('update', (('a', 8), ('c', 4))), ('update', (('c', 9), ('a', 7))), ('clear',), ('eq', tuple(sorted(full.items()))), ('len',), ('in', 'a'),
+           ('update', (('c', 3),)), ('update', (('a', 8), ('c', 4))), ('updatekw', (('c', 9),), (('a', 7),)), ('clear',), ('eq', tuple(sorted(full.items()))), ('len',), ('in', 'a'),
            ('in', 'c'), ('copy',)]
     if ms >= 2:
         ops += [('getitem', 'b'), ('set', 'b', 6), ('pop', 'b')]
